@@ -652,7 +652,7 @@ def run_overlay(suite, tier, seed, workdir, filt, nshards=None, race=False):
         env.pop("WHAWTY_AUTH_DEBUG", None)
         if race:
             env["GORACE"] = "halt_on_error=1 exitcode=66"
-        r = subprocess.run([exe, "-test.run", "^TestVerif$", "-test.count=1", "-test.timeout=30m"], cwd=sw, env=env,
+        r = subprocess.run([exe, "-test.run", "^TestVerif$", "-test.count=1", "-test.timeout=%s" % ("40m" if tier == "thorough" else "12m")], cwd=sw, env=env,
                            stdout=subprocess.PIPE, stderr=subprocess.STDOUT, text=True)
         extra = []
         if not os.path.exists(lp):
